@@ -233,7 +233,9 @@ impl<'a> GGen<'a> {
     /// pushes, then a group of nested optional / predicate / sequence constructs that push, drop and pop, then
     /// something that may fail, with an alternative that reads the stack: exercises the restore paths
     fn stack_group(&mut self, d: usize) -> Expr {
-        let t = |g: &mut Self| match g.rng.below(11) { 0..=2 => Expr::Push(bx(Expr::Str(g.lit()))), 3 | 4 => Expr::Ident("DROP".into()), 5 => Expr::Ident("POP".into()), 6 => Expr::Ident("PEEK".into()),
+        // (POP+ / POP* / DROP+ : a repetition whose last, failing iteration has already touched the stack)
+        let t = |g: &mut Self| match g.rng.below(14) { 0..=2 => Expr::Push(bx(Expr::Str(g.lit()))), 3 | 4 => Expr::Ident("DROP".into()), 5 => Expr::Ident("POP".into()), 6 => Expr::Ident("PEEK".into()),
+            11 => Expr::RepOnce(bx(Expr::Ident("POP".into()))), 12 => Expr::Rep(bx(Expr::Ident("POP".into()))), 13 => Expr::RepOnce(bx(Expr::Ident("DROP".into()))),
             7 => Expr::Ident("PEEK_ALL".into()), 8 => Expr::PeekSlice(g.rng.below(3) as i32 - 1, if g.rng.chance(1, 2) { None } else { Some(g.rng.below(3) as i32) }), _ => Expr::Str(g.lit()) };
         if d == 0 { return t(self); }
         match self.rng.below(8) {
@@ -293,7 +295,9 @@ pub fn gen_grammar(rng: &mut Rng, cfg: &GenCfg) -> Vec<Rule> {
         let pool = ["a", "b", "c", "ab", "ac", "ba", "é", "bc"];
         let mut alts: Vec<Expr> = (0..k).map(|_| Expr::Str(rng.pick(&pool[..]).to_string())).collect();
         let mut e = alts.pop().unwrap(); while let Some(x) = alts.pop() { e = Expr::Choice(bx(x), bx(e)); }
-        let body = Expr::Rep(bx(Expr::Seq(bx(Expr::NegPred(bx(e.clone()))), bx(Expr::Ident("ANY".into())))));
+        // `(!t ~ ANY)*`, and the `+` / `{1,}` spellings that must NOT become a search (they need one iteration)
+        let unit = Expr::Seq(bx(Expr::NegPred(bx(e.clone()))), bx(Expr::Ident("ANY".into())));
+        let body = match rng.below(5) { 0 => Expr::RepOnce(bx(unit)), 1 => Expr::RepMin(bx(unit), 1), _ => Expr::Rep(bx(unit)) };
         rules.push(Rule { name: "txt".into(), ty: *rng.pick(&[RuleType::Atomic, RuleType::Atomic, RuleType::CompoundAtomic]), expr: body });
         let r0 = rules[0].expr.clone();
         rules[0].expr = match rng.below(3) { 0 => Expr::Seq(bx(Expr::Ident("txt".into())), bx(Expr::Opt(bx(r0)))), 1 => Expr::Seq(bx(Expr::Ident("txt".into())), bx(Expr::Seq(bx(e), bx(Expr::Ident("txt".into()))))), _ => Expr::Choice(bx(Expr::Seq(bx(Expr::Str("c".into())), bx(r0))), bx(Expr::Ident("txt".into()))) };
@@ -319,8 +323,9 @@ pub fn gen_grammar_idiom(rng: &mut Rng, cfg: &GenCfg, k: usize) -> Vec<Rule> {
     let mut rules = gen_grammar(rng, cfg);
     let names: Vec<String> = rules.iter().map(|r| r.name.clone()).collect();
     let later: Vec<String> = names.iter().skip(1).filter(|n| *n != "WHITESPACE" && *n != "COMMENT" && *n != "wsi" && *n != "txt").cloned().collect();
-    let k = k % 10;
-    let k = if k >= 8 && !(cfg.extras && cfg.tag_shapes && cfg!(feature = "extras")) { k - 4 } else { k };
+    let k = k % 11;
+    let k = if (k == 8 || k == 9) && !(cfg.extras && cfg.tag_shapes && cfg!(feature = "extras")) { k - 4 } else { k };
+    let k = if k == 10 && !cfg.stack_ops { 3 } else { k };
     let k = if !cfg.stack_ops && k < 3 { 3 + k % 5 } else { k };
     let lits = ["a", "b", "c", "ab"];
     let s = |rng: &mut Rng| Expr::Str(rng.pick(&lits[..]).to_string());
@@ -342,7 +347,8 @@ pub fn gen_grammar_idiom(rng: &mut Rng, cfg: &GenCfg, k: usize) -> Vec<Rule> {
             let mut alts: Vec<Expr> = (0..n).map(|_| { let t = rng.pick(&pool[..]).to_string(); if rng.chance(1, 3) { Expr::Insens(t) } else { Expr::Str(t) } }).collect();
             let mut e = alts.pop().unwrap(); while let Some(x) = alts.pop() { e = Expr::Choice(bx(x), bx(e)); }
             let nm = format!("sk{}", rules.len());
-            rules.push(Rule { name: nm.clone(), ty: RuleType::Atomic, expr: Expr::Rep(bx(Expr::Seq(bx(Expr::NegPred(bx(e.clone()))), bx(Expr::Ident("ANY".into()))))) });
+            let unit = Expr::Seq(bx(Expr::NegPred(bx(e.clone()))), bx(Expr::Ident("ANY".into())));
+            rules.push(Rule { name: nm.clone(), ty: RuleType::Atomic, expr: match rng.below(4) { 0 => Expr::RepOnce(bx(unit)), _ => Expr::Rep(bx(unit)) } });
             Expr::Seq(bx(Expr::Ident(nm)), bx(Expr::Opt(bx(e)))) }
         4 => { // two fresh non-silent rules with different literals: one under the predicate, one tried at the same position after it
             let (l1, l2) = *rng.pick(&[("a", "b"), ("b", "a"), ("a", "ab"), ("ab", "c"), ("c", "a")]);
@@ -362,6 +368,13 @@ pub fn gen_grammar_idiom(rng: &mut Rng, cfg: &GenCfg, k: usize) -> Vec<Rule> {
         8 | 9 if !later.is_empty() => { let a = Expr::Ident(rng.pick(&later[..]).clone()); let b = Expr::Ident(rng.pick(&later[..]).clone());
             let tagged = if k == 8 { Expr::NodeTag(bx(Expr::Opt(bx(b))), "t".into()) } else { Expr::NodeTag(bx(Expr::Rep(bx(b))), "t".into()) };
             if rng.chance(1, 2) { Expr::Seq(bx(a), bx(tagged)) } else { tagged } }
+        // pushes, then a repeated stack reader (its last, failing iteration has already popped), then readers of what must be left
+        10 => { let npush = rng.range(2, 3); let rep = match rng.below(4) { 0 | 1 => Expr::RepOnce(bx(Expr::Ident("POP".into()))), 2 => Expr::Rep(bx(Expr::Ident("POP".into()))), _ => Expr::RepOnce(bx(Expr::Seq(bx(Expr::Ident("POP".into())), bx(Expr::Opt(bx(s(rng))))))) };
+            let tail = match rng.below(3) { 0 => Expr::Seq(bx(s(rng)), bx(Expr::Ident("POP".into()))), 1 => Expr::Ident("PEEK_ALL".into()), _ => Expr::Seq(bx(Expr::Ident("POP".into())), bx(Expr::Opt(bx(Expr::Ident("POP".into()))))) };
+            let mut e = Expr::Seq(bx(rep), bx(tail));
+            for _ in 0..npush { e = Expr::Seq(bx(Expr::Push(bx(s(rng)))), bx(e)); }
+            rules[0].ty = *rng.pick(&[RuleType::Atomic, RuleType::Atomic, RuleType::CompoundAtomic, RuleType::Normal]);
+            e }
         7 => { let e = if !later.is_empty() && rng.chance(1, 2) { Expr::Ident(rng.pick(&later[..]).clone()) } else { s(rng) }; let rest = s(rng);
             rules[0].ty = *rng.pick(&[RuleType::Silent, RuleType::NonAtomic, RuleType::Normal, RuleType::Atomic]);
             Expr::Choice(bx(Expr::Seq(bx(e.clone()), bx(rest))), bx(e)) }
